@@ -74,7 +74,11 @@ func collectNameSites(p *Program, entries []string) []nameSite {
 				case "OpenFile":
 					// classification by the flag happens at the openFile helper; direct calls: constant flag
 					if fl, ok := constInt(strip(invokeArg(e.Call, 1))); ok {
-						if fl&0x40 != 0 { // os.O_CREATE on linux
+						oCreate := osFlag(p, "O_CREATE")
+						if oCreate == 0 {
+							oCreate = 0x40
+						}
+						if fl&oCreate != 0 {
 							add("Open-create", invokeArg(e.Call, 0))
 						} else {
 							add("Open-read", invokeArg(e.Call, 0))
